@@ -3,9 +3,12 @@
 import json, os
 
 HERE = os.path.dirname(os.path.dirname(os.path.abspath(__file__)))
-LIM = ("Known false-alarm surface (DESIGN.md 10.2b): four behaviour-preserving restructurings are still reported (merge via find/any, "
-       "demotion set as an iterator pipeline, attribute loop in a closure-taking helper, options carried in a context struct); 44 of 48 "
-       "independently written refactorings are silent. ")
+LIM = ("Alarm surface as measured (DESIGN.md 10.2e): this pack checks conformance to the shapes today's mechanism is written in; it keeps its "
+       "verdict only while it still recognises the mechanism. Of 116 independently written behaviour-preserving refactorings 108 are silent for "
+       "all checks, 8 are reported with behaviour unchanged (selftest/limitations/: protocol redesigns between mechanism functions, data-layout "
+       "splits of the identifier map, pipeline rewrites of the naming code), and rewrites at the scale of a module mostly are. During development "
+       "the packs lost recognition on equivalent rewrites nobody had flagged, several times. A report of a `roles`, `inventory` or `not "
+       "recognised` rule means `re-confirm the mechanism`, and can be an alarm on correct code. ")
 TB = ("Trusted base: rustc nightly MIR (mir-opt-level=0) of /repo's current working tree as produced by the real cargo build "
       "flags; std, quick-xml 0.37.5, convert_string 0.2.0, clap and log behave as documented. ")
 
@@ -13,17 +16,17 @@ CHECKS = {
     "C05": dict(cat="proof", tech="static analysis: MIR source/discharge scan (hash-order discipline, nondeterminism-source inventory)", ref="DESIGN.md section 4 C05, section 3 A1",
                 text="Decides the property for the library: every source of run-to-run variation (hash iteration order, addresses as integers, clock, env, pid/thread identity, randomness, statics, thread-locals, interior mutability) is enumerated from the MIR of every body and must be discharged by the hash-order discipline; with no undischarged source, safe Rust without shared state computes a function of (bytes, options). obligations = rule instances, all must hold.",
                 note=TB + "quick-xml's reader is deterministic; convert_string is scanned by the same rules in the thorough tier."),
-    "C07": dict(cat="other", tech="static analysis: MIR panic-site inventory with checked discharge patterns, loop progress witnesses, recursion descent witnesses", ref="DESIGN.md section 4 C07, section 3 A2",
+    "C07": dict(lim=True, cat="other", tech="static analysis: MIR panic-site inventory with checked discharge patterns, loop progress witnesses, recursion descent witnesses", ref="DESIGN.md section 4 C07, section 3 A2",
                 text="Every panic-capable construct in every library body (Assert terminators, denylisted or #[track_caller] foreign callees, diverging/indirect calls) must match a discharge pattern verified on the MIR; every natural loop needs a progress witness on every cycle with its exhausted/Eof/Err outcome leaving the loop; every recursive call needs a structural-descent witness. Full for the crate's own code modulo the listed assumptions; panics inside dependencies and exact stack need are not decided.",
                 note=TB + "Counters of >=32 bits incremented once per occurrence do not overflow (input of several GiB); nesting <= 200 as the property states; allocation failure out of scope."),
-    "C08": dict(cat="other", tech="static analysis: error-discipline dataflow over MIR (Result propagation, constructor provenance inventory, event-class effect summaries)", ref="DESIGN.md section 4 C08, section 3 A3/A4",
+    "C08": dict(lim=True, cat="other", tech="static analysis: error-discipline dataflow over MIR (Result propagation, constructor provenance inventory, event-class effect summaries)", ref="DESIGN.md section 4 C08, section 3 A3/A4",
                 text="Decides that no error is swallowed, softened or invented by the crate: each Result (and Option<Result> iterator item) is propagated on every path; the closed inventory of ParserError constructors obeys provenance rules (reader position + reader error in the Err arm; attribute error payload; strict from_utf8; no-root only after the loop); no lenient conversion or reader configuration; ignored event kinds have no effect. Not decided: quick-xml's own verdicts.",
                 note=TB + "The caller supplies a default-configured reader."),
     "C12": dict(cat="other", tech="static analysis: effect-order/dominance rules and symbolic sink values over the binary's MIR", ref="DESIGN.md section 4 C12, section 3 A7",
                 text="Decides everything the property states given std/clap/log semantics: output effects only after both the read and the parse succeeded; sink value = the property's header + library rendering of the parsed root with options derived from --parser/--derive/--sort; file branch writes `{}` only and nothing to stdout; stdout branch prints `{}\\n` and touches no file; conversion tables, value names and defaults; error handler = stderr diagnostic, no stdout, always exit(1). The CLI has no tests at all.",
                 note=TB + "Exit status 0 follows from main returning; the program's own (non-derive) code contains no panic-capable construct (A2 inventory over the binary, R12.9); env_logger configuration analysed in the thorough tier."),
     "C15": dict(lim=True, cat="other", tech="static analysis: shape rules + path-enumerated outcome table of the merge function's MIR", ref="DESIGN.md section 4 C15, section 3 A9",
-                text="For the nested-loop implementation shape: result created empty and append-only; each parameter traversed front to back without adapters and to exhaustion; every path of an iteration (flags and tags tracked) pushes exactly the tag the specification table demands. These facts imply union, exactly-once for duplicate-free inputs, conjunction of necessity and stable order. A rewrite into combinators is reported as shape-not-recognised (documented limitation).",
+                text="For the nested-loop implementation shape: result created empty and append-only; each parameter traversed front to back without adapters and to exhaustion; every path of an iteration (flags and tags tracked) pushes exactly the tag the specification table demands. These facts imply union, exactly-once for duplicate-free inputs, conjunction of necessity and stable order. Forms written with find/any/position/contains are normalised into loops first (DESIGN.md 10.2c); any other shape is reported as not recognised.",
                 note=TB + "PartialEq of the item type is an equivalence."),
 
     "C01": dict(lim=True, cat="other", tech="static analysis: parser-mechanism conformance rules over MIR (event classes, control/data dependence of the inference mechanism), unsound direction", ref="DESIGN.md section 4 C01/C03/C06 (PM pack)",
@@ -48,11 +51,8 @@ CHECKS = {
                 text="Partial: every insertion into a children vector is guarded by a name-only absence test of the inserted child's own name or re-inserts the value just removed; lookups/removal compare the name only and remove the found index; adding a present name is a no-op and an absent name is always appended as Mandatory (the insertion depends on the name lookup only; Element::eq implies equal names, Necessity::eq implies equal payloads); lookups scan the whole list; no traversal of children/attributes is shortened; mark-optional re-inserts the removed value (subtree kept); renderer emits one field per child/attribute. Not decided: step-by-step model equivalence, output well-formedness.",
                 note=TB + "Induction over operation sequences with Element::new as base case is a hand argument."),
     "C04": dict(lim=True, cat="other", tech="static analysis: guard cross-check between sibling identifier producers (reserved-word and uniqueness guards on every path to an identifier slot)", ref="DESIGN.md section 4 C04",
-                text="Partial: field identifiers reach their template slots only through to_valid_key and a single reservation list that records a name only when not yet contained (holds); struct identifiers are demanded the same and fail both guards - two known findings confirmed on the real code (reserved/prelude names, duplicate struct names); header slot and field-type slot of a child are the same function of the same trace; every emitted line is one of the output grammar's templates written out exactly; the identifier map covers every child and attribute and is read back under the key it was stored with; every element gets a name hint >= 1. Not decided: sufficiency of the guards for all names.",
+                text="Partial: field identifiers reach their template slots only through to_valid_key and a single reservation list that records a name only when not yet contained (holds); struct identifiers are demanded the same and fail both guards - two known findings confirmed on the real code (reserved/prelude names, duplicate struct names); header slot and field-type slot of a child are the same function of the same trace, the name is cut from the own-name end of that trace over at least the hinted length, and names collected at several positions get the computed separating length; every emitted line is one of the output grammar's templates written out exactly; the identifier map covers every child and attribute and is read back under the key it was stored with; every element gets a name hint >= 1. Not decided: sufficiency of the guards for all names.",
                 note=TB + "convert_string::to_valid_key yields a legal non-keyword identifier."),
-    "C14": dict(lim=True, cat="other", tech="static analysis: shape and dataflow rules over the MIR of the struct-name mechanism (trace stack discipline, suffix slice of the ancestor trace, hint table totality, single-position shortcut)", ref="DESIGN.md section 4 C14",
-                text="Partial: does NOT decide the string values (PascalCase form is a dependency's), nor that ancestors are used only when needed for names occurring at several positions (minimality of the separating length), nor the optional suffix. Decides the structural clauses, each a necessary condition: the root's struct is emitted first and child structs after their parent; header and field-type slots are the same producer over the same trace and hint table, the trace being the stack of the ancestors' formatted names in nesting order ending with the element's own; the producer returns the concatenation of a suffix of that trace whose length is the hint stored under the element's own formatted name (own name last, nearest ancestors contiguous before it); a name collected exactly once gets hint 1 (no qualification); every element has a hint >= 1.",
-                note=TB + "convert_string::to_pascal_case is trusted."),
     "C02": dict(lim=True, cat="other", tech="static analysis: constant-table agreement (preset constants from MIR vs key literals of the locked deserializer sources) + renderer use sets + output-template grammar + the C04 and C01 rule packs as necessary conditions", ref="DESIGN.md section 4 C13/C02, section 3 A8",
                 text="Partial, necessary conditions only: (a) binding-key agreement - the quick-xml preset's text identifier and attribute prefix are keys the locked quick-xml deserializer recognises, the default derive list names macros in scope incl. Deserialize, and the renderer binds text/attributes through exactly these fields; (b) the output-template grammar and the C04 identifier/struct-name rules (a duplicate or illegal name does not compile; C04's two known findings are listed for this property too); (c) the soundness-direction mechanism rules of C01 (a schema that does not admit a source document cannot deserialize it). Compilation, from_str success and deny_unknown_fields themselves are NOT decided (they need rustc and the deserializer to run).",
                 note=TB + "Registry sources of the version named in Cargo.lock are what generated code is compiled against."),
@@ -61,7 +61,15 @@ CHECKS = {
                 note=TB + "Registry sources of the version named in Cargo.lock."),
 }
 
-NA = {}
+NA = {
+    "C14": "The property is about the string values the naming code produces (PascalCase form, ancestor qualification only when needed, the shortest "
+           "qualification that separates). Those are values computed by loops over runtime strings; no static argument in reach bounds them. A partial "
+           "claim was built and withdrawn: its rules restated today's code shape (exact suffix slice, constant 1 under `len == 1`) and alarmed on "
+           "behaviour-preserving rewrites (`traces.len() == 0`, no shortcut at all), while the clause a user relies on - qualification only when needed - "
+           "stayed undecided (DESIGN.md section 4 C14, section 10.2). The structural parts that are necessary conditions of *other* properties are "
+           "checked there: emission order under C09 (R9.1), trace discipline, hint totality, direction and range of the search, suffix cut and the "
+           "computed length for shared names under C04 (G3, H1-H7). selftest/undecided/ holds three changes that alter the names and that nothing reports.",
+}
 PENDING = "check under construction in this round (DESIGN.md section 8)"
 
 
